@@ -1,6 +1,7 @@
 package vc
 
 import (
+	"go/token"
 	"strings"
 	"fmt"
 	"go/types"
@@ -88,6 +89,9 @@ func (f *frame) execMapUpdate(x *ssa.MapUpdate, in string, st *State) {
 	v := f.val(x.Value).T
 	vc.obligeIn(f, "nil", "mapstore:"+vc.anchorAt(f.fn, x.Pos(), "index"), in, Not(Eq(m.T, "Null")), x.Pos(), "assignment to entry in possibly nil map")
 	mv, mp, _, _ := vc.mapHeaps(m.Typ)
+	if len(f.declFrames) > 0 {
+		f.checkMapWrite(x.Block(), m, in, x.Pos(), "mapupdate:"+vc.anchorAt(f.fn, x.Pos(), "index"))
+	}
 	had := App("select", App("select", vc.heapOf(st, mp), m.T), k)
 	newC := Ite(had, App("select", vc.heapOf(st, "MC"), m.T), App("+", App("select", vc.heapOf(st, "MC"), m.T), "1"))
 	vc.setHeap(st, "MC", App("store", vc.heapOf(st, "MC"), m.T, newC))
@@ -99,6 +103,9 @@ func (f *frame) execMapDelete(args []Val, in string, st *State) {
 	vc := f.vc
 	m, k := args[0], args[1].T
 	_, mp, _, _ := vc.mapHeaps(m.Typ)
+	if len(f.declFrames) > 0 && f.curBlock != nil {
+		f.checkMapWrite(f.curBlock, m, in, token.NoPos, "delete")
+	}
 	had := vc.mapHas(st, m, k)
 	newC := Ite(had, App("-", App("select", vc.heapOf(st, "MC"), m.T), "1"), App("select", vc.heapOf(st, "MC"), m.T))
 	// delete on a nil map is a no-op. The cells of the Null reference are never
